@@ -228,6 +228,10 @@ func runRealInner(out *Outcome, d *Decls, spec string, argv []string, envPrefix 
 	runRealFull(out, d, spec, append([]string{"app"}, argv...), envPrefix, builtin)
 }
 
+// AfterDeclare, when set, runs between the declarations and Run (C20 changes the environment there: the outcome must
+// depend on the environment at declaration time only). Written only while no case goroutine runs.
+var AfterDeclare func()
+
 // runRealFull takes the complete vector (program name first) and hands that very slice to Run.
 func runRealFull(out *Outcome, d *Decls, spec string, full []string, envPrefix string, builtin bool) {
 	app := cli.App("app", "")
@@ -241,6 +245,9 @@ func runRealFull(out *Outcome, d *Decls, spec string, full []string, envPrefix s
 		for _, h := range hs {
 			out.Raw[h.Key] = append([]string{}, h.Vals()...)
 		}
+	}
+	if AfterDeclare != nil {
+		AfterDeclare()
 	}
 	err := app.Run(full)
 	if err != nil {
